@@ -19,7 +19,11 @@ def _run_one(args):
     mod = importlib.import_module(f'props.{pid.lower()}')
     from pyvc import engine
     unit = mod.units()[idx]
-    return engine.run_unit(unit)
+    r = engine.run_unit(unit)
+    if os.environ.get('PYVC_UNIT_PROGRESS'):
+        d = sum(1 for o in r['obligations'] if o['status'] == 'discharged')
+        print(f"  done {r['unit']}: {r['status']} paths={r['paths']} {d}/{len(r['obligations'])} {r['secs']}s", file=sys.stderr, flush=True)
+    return r
 
 
 def run_units(pid, select=None, jobs=16):
